@@ -32,6 +32,26 @@ func specRate(d int64, wms int64) float64 {
 
 func sameF(a, b float64) bool { return math.Float64bits(a) == math.Float64bits(b) }
 
+func closeF(a, b float64) bool {
+	if a == b || math.Float64bits(a) == math.Float64bits(b) {
+		return true
+	}
+	return math.Abs(a-b) <= 1e-9*math.Max(math.Abs(a), math.Abs(b))
+}
+
+// rateIs asserts got == want. The symbolic run demands the bits of the defining formula (which
+// makes the query decidable); the native confirmation accepts a relative difference of 1e-9,
+// so that a refactoring that only changes the rounding can never be reported.
+func rateIs(got, want float64, label string) {
+	vAssertNative(sameF(got, want), func() bool {
+		if got == want {
+			return true
+		}
+		d := math.Abs(got - want)
+		return d <= 1e-9*math.Max(math.Abs(got), math.Abs(want))
+	}, label)
+}
+
 // HarnessC20_Step: one sampling step of one window from an arbitrary state.
 func HarnessC20_Step() {
 	w := []int64{10, 30, 300}[vChoice(3)]
@@ -53,7 +73,7 @@ func HarnessC20_Step() {
 	vAssert(s.lastSample.Equal(now), "a sampling window remembers the instant")
 	d := int64(cnt - prevCnt)
 	if d > 0 {
-		vAssert(sameF(s.rps, specRate(d, w*1000)), "rate is the counter's increase divided by the window length")
+		rateIs(s.rps, specRate(d, w*1000), "rate is the counter's increase divided by the window length")
 		vReach("step-grow")
 	} else {
 		vAssert(s.rps == 0, "a stalled or backwards counter yields 0")
@@ -89,7 +109,12 @@ func HarnessC20_Cascade() {
 	chk := func(s *sample, d bool, pc uint64, pr float64, w int64, name string) {
 		want := vIteF64(int64(src.n-pc) > 0, specRate(int64(src.n-pc), w*1000), 0)
 		ok := vIteU8(d, vIteU8(vAnd(s.count == src.n, sameF(s.rps, want)), 1, 0), vIteU8(vAnd(s.count == pc, sameF(s.rps, pr)), 1, 0))
-		vAssert(ok == 1, name+" window: samples (rate = growth / window) iff it and all faster windows are due, else unchanged")
+		vAssertNative(ok == 1, func() bool {
+			if d {
+				return s.count == src.n && closeF(s.rps, want)
+			}
+			return s.count == pc && closeF(s.rps, pr)
+		}, name+" window: samples (rate = growth / window) iff it and all faster windows are due, else unchanged")
 		vAssert(vImplies(d, finiteNonNeg(s.rps)), name+" window: reported rate finite and non-negative")
 	}
 	chk(&k.r10s, d10, c10, r10, 10, "10 s")
@@ -134,7 +159,7 @@ func HarnessC20_History() {
 		if due {
 			d := int64(src.n - prevCnt)
 			want := vIteF64(d > 0, specRate(d, 10000), 0)
-			vAssert(sameF(k.Xps10s(), want), "10 s rate equals growth since the previous 10 s sample / 10 s")
+			rateIs(k.Xps10s(), want, "10 s rate equals growth since the previous 10 s sample / 10 s")
 			prevCnt, prevSec, prevNs = src.n, s, ns
 		}
 		vAssert(vAnd(finiteNonNeg(k.Xps10s()), vAnd(finiteNonNeg(k.Xps30s()), finiteNonNeg(k.Xps300s()))), "all reported rates finite and non-negative")
@@ -171,7 +196,7 @@ func HarnessC20_Average() {
 		vReach("avg-zero")
 		return
 	}
-	vAssert(sameF(got, float64(d)*1000/float64(ms)), "average = total increase / time since first non-zero observation")
+	rateIs(got, float64(d)*1000/float64(ms), "average = total increase / time since first non-zero observation")
 	vReach("avg")
 }
 
@@ -194,7 +219,7 @@ func HarnessC20_Kbps() {
 	r := specRate(d, w*1000)
 	kb.imp.r10s.rps, kb.imp.r30s.rps, kb.imp.r300s.rps = r, r, r
 	for _, got := range []float64{kb.Kbps10s(), kb.Kbps30s(), kb.Kbps300s()} {
-		vAssert(sameF(got, r*8/1000), "bitrate is the byte rate scaled to kbit/s")
+		rateIs(got, r*8/1000, "bitrate is the byte rate scaled to kbit/s")
 		vAssert(finiteNonNeg(got), "bitrate finite and non-negative")
 	}
 	kb.Close()
